@@ -16,8 +16,9 @@ theorem parseVpl_missing_eq {name k : Str} (hn : IsIdent name) (hk : IsIdent k) 
   have h1 : parseIdent (name ++ (w.str ++ (k ++ r))) = .ok (w.str ++ (k ++ r)) name :=
     parseIdent_ok hn (NW.identRest (NW.ws1 w _))
   have h2 := parseProperty_missing_eq hk hr hne
-  simp only [parseVpl, parsePipeline, parsePipelineWith, ws0_eq, R.bind_ok, sepList1, parseNode, dropWs_idem,
+  simp only [parseVpl, parseVplCore, parsePipeline, parsePipelineWith, ws0_eq, R.bind_ok, sepList1, parseNode, dropWs_idem,
     dropWs_of_headNotWs hc hcw, h1, dropWs_ws1, dropWs_of_headNotWs hc' hcw', sepList0, h2, R.bind_failure]
+  split <;> rfl
 
 /-- **missing `]`**: a source list that is still open at the end of the text is a hard failure of
     `parse_sources` (for every correct inner pipeline parser). -/
